@@ -185,17 +185,27 @@ impl<T> RcInner<T> {
     #[inline]
     pub(crate) fn increment_strong(&self) -> bool {
         vp!(INC_S_1);
-        let val = State::from_raw(self.state.fetch_add(COUNT, Ordering::SeqCst));
-        if val.destructed() {
-            return false;
-        }
-        if val.strong() == 0 {
-            // The previous fetch_add created a permission to run decrement again.
-            // Now create an actual reference.
+        let mut old = State::from_raw(self.state.load(Ordering::SeqCst));
+        loop {
+            if old.destructed() {
+                return false;
+            }
+            // Incrementing from zero must create, in one atomic step, both a permission for the
+            // pending `try_destruct` to run decrement again and the actual reference. If they
+            // were added separately, `try_destruct` could consume the permission in between and
+            // the reference would then be mistaken for the permission of the next attempt.
+            let add = if old.strong() == 0 { 2 } else { 1 };
             vp!(INC_S_2);
-            self.state.fetch_add(COUNT, Ordering::SeqCst);
+            match self.state.compare_exchange(
+                old.as_raw(),
+                old.add_strong(add).as_raw(),
+                Ordering::SeqCst,
+                Ordering::SeqCst,
+            ) {
+                Ok(_) => return true,
+                Err(curr) => old = State::from_raw(curr),
+            }
         }
-        true
     }
 
     #[inline]
